@@ -632,6 +632,17 @@ func raceSignature(blk string) (string, bool) {
 			acc = append(acc, t)
 		}
 	}
+	// a race whose two access sites (innermost frames) both lie in harness code is a harness
+	// bug, whoever called it: it is reported as HARNESS-ERROR, never as a property violation
+	harnessSites := 0
+	for _, a := range acc {
+		if innermostIsHarness(a) {
+			harnessSites++
+		}
+	}
+	if len(acc) >= 2 && harnessSites == len(acc) {
+		return "", false
+	}
 	var sigs []string
 	any := false
 	for _, a := range acc {
@@ -652,6 +663,20 @@ func raceSignature(blk string) (string, bool) {
 	}
 	sort.Strings(sigs)
 	return "race/" + strings.Join(sigs, "|"), true
+}
+
+func innermostIsHarness(stack string) bool {
+	for _, l := range strings.Split(stack, "\n")[1:] {
+		t := strings.TrimSpace(l)
+		if t == "" || strings.HasPrefix(t, "/") {
+			continue
+		}
+		if strings.HasPrefix(t, "runtime.") || strings.HasPrefix(t, "sync.") || strings.HasPrefix(t, "sync/atomic.") {
+			continue
+		}
+		return strings.HasPrefix(t, "verifharness/") || strings.HasPrefix(t, "testing.")
+	}
+	return false
 }
 
 func tail(s string, n int) string {
